@@ -151,6 +151,13 @@ class _P:
             return ('ref',) + v
         if k == 'op' and v == '(':
             e = self.expr()
+            if self.peek()[0] == 'op' and self.peek()[1] in ',;':
+                items = [e]                      # reference union (INDEX over several areas)
+                while self.peek()[0] == 'op' and self.peek()[1] in ',;':
+                    self.take()
+                    items.append(self.expr())
+                self.expect_op(')')
+                return ('union', items)
             self.expect_op(')')
             return ('par', e)
         if k == 'func':
